@@ -106,6 +106,8 @@ def run(ctx):
                 events.append(dict(ev="e2ehdr", sent={k2: str(v) for k2, v in sent.items()}, seen=e["reply"]["map"]))
             if e["ev"] == "e2e-headercut":
                 events.append(dict(ev="e2ecut", reading=e["reading"] > 0 and e["conn"] == 0, ended=e["ended"] >= 1))
+    # ---------------- two dozen connections within one daemon run (frames of every one of them delivered once, in order)
+    runs += fam_e2e.many_reconnects_run(ctx, binp)
     # ---------------- known finding F-C14-1: a frame that begins with the marker bytes
     w, h, fps = 4, 3, 2
     settings = dict(min=1, max=2, preview=1, const=True, throttle=False, motion=dict(fam_e2e.FIXED_MOTION, **{"trigger-frames": 1}))
